@@ -398,6 +398,14 @@ fn run(rec: &mut Rec) {
 }
 
 fn replay(case: &Value, rec: &mut Rec) {
+    if case.get("kind").and_then(|k| k.as_str()) == Some("fuzz-bytes") {
+        let data = unhex(case.get("bytes").and_then(|b| b.as_str()).unwrap_or(""));
+        rec.eval(1);
+        if let Err(f) = fuzz_file(&data) {
+            rec.violation(&f.sig, case.clone(), f.detail);
+        }
+        return;
+    }
     let header = unhex(case.get("header").and_then(|h| h.as_str()).unwrap_or(""));
     if header.len() != 80 {
         rec.inconclusive("replay case needs an 80-byte header");
